@@ -43,8 +43,12 @@ def gen_workload(tape, tier):
     """Return dict(contigs, reads, bed_lines, bed_rows, ncols, min_mapq, ...)."""
     big = tier == "thorough"
     n_contigs = tape.weighted([(1, 3), (2, 2), (3, 2)], "bam.ncontigs")
-    naming = tape.choice(["chr", "plain"], "bam.naming")
+    # "mixed": prefixed and bare names side by side, also for the same chromosome ("1" and
+    # "chr1" sort alike), and a zero-padded one
+    naming = tape.weighted([("chr", 3), ("plain", 3), ("mixed", 1)], "bam.naming")
     names_pool = ["1", "2", "X", "Y", "M", "10", "GL000207.1"]
+    if naming == "mixed":
+        names_pool = ["1", "chr1", "01", "X", "chrX", "2", "chr2"]
     idxs = tape.shuffle(range(len(names_pool)), "bam.names")[:n_contigs]
     contigs = []
     for i in idxs:
@@ -180,11 +184,21 @@ def gen_workload(tape, tier):
             mapq = int(rng.integers(0, 61))
         reads.append(Read(ci, pos, qlen, lc, rc, flag, mapq, f"r{k}"))
     reads.sort(key=lambda r: (r.tid, r.pos))
+    # unplaced unmapped reads (no contig, no position): stored after all placed reads in a
+    # coordinate-sorted BAM
+    n_unplaced = tape.weighted([(0, 3), (1, 1), (4, 1)], "bam.unplaced")
+    for k in range(n_unplaced):
+        reads.append(Read(-1, -1, int(rng.integers(30, 151)), 0, 0,
+                          FLAG_UNMAP | (FLAG_PAIRED if rng.random() < 0.5 else 0), 0, f"u{k}"))
 
     # --- BED text ---------------------------------------------------------------
     header = tape.chance(1, 6, "bed.track")
     comments = tape.chance(1, 6, "bed.comments")
     lines = []
+    # UCSC "browser" lines, with or without a track line after them
+    n_browser = tape.weighted([(0, 5), (1, 2)], "bed.browser")  # a second browser line is rejected by the --count reader (pinned tree): not quantified over
+    for k in range(n_browser):
+        lines.append(f"browser position {contigs[0][0]}:1-{100 + k}\n" if k == 0 else "browser hide all\n")
     if header:
         lines.append('track name="verif" description="synthetic"\n')
     for (ci, s, e, name) in rows:
@@ -204,7 +218,9 @@ def gen_workload(tape, tier):
         "rows": rows,
         "ncols": ncols,
         "bed_lines": lines,
-        "track_header": header,
+        "track_header": header or bool(n_browser),
+        "n_browser": n_browser,
+        "n_header_lines": n_browser + (1 if header else 0),
         "comments": comments,
         "min_mapq": min_mapq,
         "sorted_bed": sorted_bed,
@@ -216,7 +232,9 @@ def _bin_name(rng, b):
     r = rng.random()
     if r < 0.06:
         # legal but unusual characters inside a name
-        return ["exon#%d" % b, "G;x|y:z", "a b", "#lead%d" % b, "x%%y", "q\"uote", "R=1&2"][int(rng.integers(0, 7))]
+        return ["exon#%d" % b, "G;x|y:z", "a b", "#lead%d" % b, "x%%y", "q\"uote", "R=1&2",
+                # names that look like something else to a table parser
+                "NA", "None", "null", "nan", "007", "1e5", "TRUE", "12"][int(rng.integers(0, 15))]
     if r < 0.5:
         return f"G{int(rng.integers(0, 8))}"
     if r < 0.65:
@@ -259,7 +277,7 @@ def write_bam(wl, path, index=True):
             a.query_sequence = "A" * r.qlen
             a.flag = r.flag
             a.reference_id = r.tid
-            a.reference_start = r.pos
+            a.reference_start = r.pos  # (-1, -1) for an unplaced read
             a.mapping_quality = r.mapq
             if r.flag & FLAG_UNMAP:
                 a.cigartuples = None
@@ -339,7 +357,7 @@ def workload_probes(wl, min_mapq):
     if any(r.left_clip or r.right_clip for r in reads):
         p["read.softclip"] = 1
     for r in reads:
-        if r.pos + r.aligned == wl["contigs"][r.tid][1]:
+        if r.tid >= 0 and r.pos + r.aligned == wl["contigs"][r.tid][1]:
             p["read.at_contig_end"] = 1
             break
     strad = 0
